@@ -5,7 +5,7 @@ import json, os, subprocess, sys, time
 
 ROOT = os.path.dirname(os.path.dirname(os.path.abspath(__file__)))
 # which checks are expected to see a seed: its own property first, then others that share the mechanism
-ALSO = {"C08-b": ["C01"], "C11-a": ["C16"], "C07-d": ["C10"], "C19-d": ["C07"], "C02-d": ["C03"], "C16-a": ["C14"]}
+ALSO = {"C08-b": ["C01"], "C11-a": ["C16"], "C07-d": ["C10"], "C19-d": ["C07"], "C02-d": ["C03"], "C16-a": ["C14"], "C08-e": ["C10"], "C09-f": ["C19"]}
 
 
 def sh(cmd, **kw):
